@@ -46,6 +46,11 @@ func (r *RingBuffer) Close() {
 		r.buffer[i] = nil
 	}
 
+	// realign indexes with the emptied buffer, otherwise data pushed
+	// after Close() can be pulled in a different order than the push order.
+	r.writeIndex = 0
+	r.readIndex = 0
+
 	r.mutex.Unlock()
 	r.cond.Broadcast()
 }
